@@ -65,6 +65,7 @@ struct Fibre {
 	int total_sleeps;
 	int alloc_failures, no_write_window;
 	int64_t op_last_timed_block_ns;
+	int64_t op_last_timer_wake_ns;      /* virtual time at which this fibre was last released by its own timer in this op, -1 none */
 };
 
 struct Policy {
@@ -119,6 +120,7 @@ struct G {
 	int64_t plain_since_sched; int64_t limit_hits;
 	unsigned char *site_hit; uintptr_t text_lo; size_t text_len;
 	int tracing; FILE *trace_fp;
+	struct { uintptr_t addr; int first_tid; int active; } watch[NSIM_MAXWATCH]; int nwatch;
 };
 extern G g;
 
